@@ -9,6 +9,7 @@ import (
 	"strconv"
 
 	"github.com/open2b/scriggo/ast"
+	"github.com/open2b/scriggo/internal/compiler/types"
 )
 
 // A compilation holds the state of a single compilation.
@@ -19,6 +20,11 @@ import (
 //
 // Currently the compilation is used only by the typechecker.
 type compilation struct {
+	// types is the cache of the types created during the compilation: it is
+	// shared by the type checkers of the packages and files, so that a
+	// type with Scriggo types in it is one type in every package.
+	types *types.Types
+
 	// pkgPathToIndex maps the path of a package to an unique int identifier.
 	pkgPathToIndex map[string]int
 
@@ -86,6 +92,7 @@ type renderIR struct {
 // newCompilation returns a new compilation.
 func newCompilation(globalScope map[string]scopeName) *compilation {
 	return &compilation{
+		types:             types.NewTypes(),
 		pkgInfos:          map[string]*packageInfo{},
 		pkgPathToIndex:    map[string]int{},
 		typeInfos:         map[ast.Node]*typeInfo{},
